@@ -313,6 +313,26 @@ theorem setPos_last_wins (pack : Nat → Bytes) (c : Ctx) (p q : Nat) (b : Bytes
     (((c.setPos p).setPos q).write pack b).output = c.output ++ enc (pack q) ++ b := by
   simp [Ctx.setPos, Ctx.write, Ctx.writePos]
 
+/-- full-strength statement about the pending position (NOT claimed: false of the code as it is): every position
+    handed to `SetPos` before some output is written into the buffer as a hint. -/
+def every_setpos_reported : Prop :=
+  ∀ (pack : Nat → Bytes) (c : Ctx) (p q : Nat) (b : Bytes),
+    ∃ pre post, (((c.setPos p).setPos q).write pack b).output = pre ++ enc (pack p) ++ post
+
+/-- witness: a second `SetPos` before any output replaces the first (this is how `if` statements lose their position:
+    translateStmt sets it, translateBranchingStmt sets `clause.Pos()` = NoPos of the synthetic clause right after). -/
+theorem every_setpos_reported_counterexample : ¬ every_setpos_reported := by
+  intro h
+  obtain ⟨pre, post, h⟩ := h (fun n => [n]) Ctx.empty 1 0 []
+  rw [setPos_last_wins] at h
+  simp only [Ctx.empty, enc, List.nil_append, List.append_nil, List.length_cons, List.length_nil] at h
+  have hl := congrArg List.length h
+  simp only [List.length_cons, List.length_nil, List.length_append] at hl
+  have hpre : pre = [] := List.eq_nil_of_length_eq_zero (by omega)
+  have hpost : post = [] := List.eq_nil_of_length_eq_zero (by omega)
+  subst hpre hpost
+  simp at h
+
 /-- `Printf` with a pending position: the hint comes first, BEFORE the indentation of the line (so the generated
     column of a statement in non-minified output is the start of the line, its code follows after the tabs) -/
 theorem printf_hint_first (pack : Nat → Bytes) (c : Ctx) (p : Nat) (s : Bytes) :
